@@ -13,7 +13,7 @@ Proof. exact step_preserves_Inv. Qed.
 Print Assumptions C05_invariant_preserved_by_every_good_operation.
 
 Theorem C05_invariant_over_histories :
-  forall cfg ops s, Inv s -> goods cfg s ops -> Inv (run cfg s ops).
+  forall ops cfg s, Inv s -> goods cfg s ops -> Inv (run cfg s ops).
 Proof. exact run_preserves_Inv. Qed.
 Print Assumptions C05_invariant_over_histories.
 
@@ -72,9 +72,9 @@ Theorem C05_rotation_outside_queues_preserves_invariant :
 Proof. exact Inv_rotate. Qed.
 Print Assumptions C05_rotation_outside_queues_preserves_invariant.
 Theorem C05_genesis_import_reestablishes_equality :
-  forall s, Inv s -> some_active_now s ->
-  Inv (fst (genesis_import s)) /\ snd (genesis_import s) = ROk /\
-  (forall k, In k (st_cset (fst (genesis_import s))) <-> exists v r, lookup v (st_vals s) = Some r /\ v_status r = SActive /\ v_cons r = k).
+  forall over s, Inv s -> some_active_now s ->
+  Inv (fst (genesis_import over s)) /\ snd (genesis_import over s) = ROk /\
+  (forall k, In k (st_cset (fst (genesis_import over s))) <-> exists v r, lookup v (st_vals s) = Some r /\ v_status r = SActive /\ v_cons r = k).
 Proof. exact genesis_import_reestablishes. Qed.
 Print Assumptions C05_genesis_import_reestablishes_equality.
 
@@ -93,7 +93,7 @@ Print Assumptions C05_chk_sound_end_block.
 Theorem C05_decidable_invariant_sound : forall s, invb s = true -> Inv s.
 Proof. exact invb_sound. Qed.
 Print Assumptions C05_decidable_invariant_sound.
-Theorem C05_decidable_alphabet_sound : forall cfg ops s, goodsb cfg s ops = true -> goods cfg s ops.
+Theorem C05_decidable_alphabet_sound : forall ops cfg s, goodsb cfg s ops = true -> goods cfg s ops.
 Proof. exact goodsb_sound. Qed.
 Print Assumptions C05_decidable_alphabet_sound.
 
@@ -136,7 +136,7 @@ Print Assumptions C05_rotation_while_in_removing_queue_refuted.
 Theorem C05_rotation_while_in_reactivating_queue_refuted : ~ C05_statement_for [OUnpause 1; ORotate 1 5; OEndBlock].
 Proof. exact rotate_while_reactivating_refuted. Qed.
 Print Assumptions C05_rotation_while_in_reactivating_queue_refuted.
-Theorem C05_genesis_import_nobody_active_refuted : ~ C05_statement_for [OEvidence [(0, 10, 1000)]; OGenesis].
+Theorem C05_genesis_import_nobody_active_refuted : ~ C05_statement_for [OEvidence [(0, 10, 1000)]; OGenesis []].
 Proof. exact genesis_import_empty_refuted. Qed.
 Print Assumptions C05_genesis_import_nobody_active_refuted.
 
